@@ -290,41 +290,49 @@ def toPatRoot (X : TP) (d : Bool) : GoNode → Option Pat
 /-! ## the fragments -/
 
 mutual
-/-- the smallest tier whose theorem speaks about this tree (given that `toPat` succeeds and every direction bit
-    is left-to-right): 1 = empty, nothing, anchors, One/Notone/Set, Multi, Concatenate, Alternate, Capture, Group;
-    2 = + single-character loops; 3 = + Atomic, lookahead; 4 = + Loop/Lazyloop, Ref, conditionals, lookbehind;
-    9 = `UpdateBumpalong`, ECMAScript boundaries, balancing groups, unknown nodes -/
+/-- the smallest tier whose theorem speaks about this tree (given that `toPat` succeeds):
+    1 = empty, nothing, anchors, One/Notone/Set, Multi, Concatenate, Alternate, Capture, Group;
+    2 = + single-character loops; 3 = + Atomic, lookahead; 4 = + Loop/Lazyloop (general loops, any body);
+    5 = + `UpdateBumpalong`; 6 = + Ref (case-sensitive), BackRefCond, ExprCond; 7 = + lookbehind (and, in `InFrag`, the tree
+    option RightToLeft) — every node type above read right to left, except the single-character loops; 8 = + right-to-left
+    single-character loops; 9 = + ECMAScript boundaries; 10 = balancing groups, case-insensitive Ref, unknown nodes -/
 def tier : GoNode → Nat
   | .empty => 1
-  | .bare t => if t == opUpdateBumpalong || t == opECMABoundary || t == opNonECMABoundary then 9 else 1
+  | .bare t =>
+    if t == opUpdateBumpalong then 5 else if t == opECMABoundary || t == opNonECMABoundary then 9 else 1
   | .char _ _ _ _ => 1
   | .set _ _ _ => 1
   | .multi _ _ _ => 1
-  | .ref _ _ _ => 4
-  | .charloop _ _ _ _ _ _ => 2
-  | .setloop _ _ _ _ _ _ => 2
+  | .ref _ ci _ => if ci then 10 else 6
+  | .charloop _ rtl _ _ _ _ => if rtl then 8 else 2
+  | .setloop _ rtl _ _ _ _ => if rtl then 8 else 2
   | .concat cs => tierList cs
   | .alt cs => tierList cs
   | .loop _ _ _ c => max 4 (tier c)
-  | .capture _ n c => if n == -1 then tier c else 9
+  | .capture _ n c => if n == -1 then tier c else 10
   | .group c => tier c
-  | .poslook c => if lookDir c == some false then max 3 (tier c) else max 4 (tier c)
-  | .neglook c => if lookDir c == some false then max 3 (tier c) else max 4 (tier c)
+  | .poslook c => if lookDir c == some false then max 3 (tier c) else max 7 (tier c)
+  | .neglook c => if lookDir c == some false then max 3 (tier c) else max 7 (tier c)
   | .atomic c => max 3 (tier c)
-  | .backrefcond1 _ y => max 4 (tier y)
-  | .backrefcond2 _ y n => max 4 (max (tier y) (tier n))
-  | .exprcond2 c y => max 4 (max (tier c) (tier y))
-  | .exprcond3 c y n => max 4 (max (tier c) (max (tier y) (tier n)))
-  | .other _ => 9
+  | .backrefcond1 _ y => max 6 (tier y)
+  | .backrefcond2 _ y n => max 6 (max (tier y) (tier n))
+  | .exprcond2 c y => max 6 (max (tier c) (tier y))
+  | .exprcond3 c y n => max 6 (max (tier c) (max (tier y) (tier n)))
+  | .other _ => 10
 def tierList : List GoNode → Nat
   | [] => 1
   | c :: cs => max (tier c) (tierList cs)
 end
 
-/-- **the fragment of tier `k`**: the root is the implicit capture of group 0, the translation succeeds with
-    every direction bit left-to-right, only node types of tiers `≤ k` occur, and group 0 has slot 0 -/
+/-- **the fragment of tier `k`**: the root is the implicit capture of group 0, the translation succeeds in the
+    direction of the tree option RightToLeft (every leaf's direction bit is the direction of its position: the option's
+    outside lookarounds, right-to-left inside a lookbehind, left-to-right inside a lookahead), only node types of tiers
+    `≤ k` occur, the option RightToLeft only from tier 7 on, group 0 has slot 0, and — for a tree of tier 6 or more, where
+    groups are read back (`Ref`, `Testref`) — the writer numbers the capture slots by the group numbers themselves (no
+    `caps` map: the group numbers are dense) -/
 def InFrag (k : Nat) (X : TP) (ti : TreeInfo) (t : GoNode) : Bool :=
-  (toPatRoot X false t).isSome && decide (tier t ≤ k) && !ti.rtl && mapCapnum (mainCfg ti) 0 == 0
+  (toPatRoot X ti.rtl t).isSome && decide (tier t ≤ k) && (!ti.rtl || decide (7 ≤ k)) && mapCapnum (mainCfg ti) 0 == 0 &&
+    (decide (tier t < 6) || (writerCaps ti).2.isNone)
 
 /-! ## the simulation vocabulary -/
 
@@ -385,16 +393,19 @@ inductive Framed (p : Prog) : List Int → Prop
 /-- execution from `s` reaches a state satisfying `Q` -/
 def Leads (X : Setup) (s : VM.VMState) (Q : VM.VMState → Prop) : Prop := ∃ s', Reach X.p X.env s s' ∧ Q s'
 
-/-- **the code fragment that ends at `b` delivers the successes `rs`, in order, on demand.**  Entered in `s` above
-    the backtracking stack `T` with grouping stack `S`: for the first success `r` the interpreter reaches `b` at
-    `r.pos` with the captures of `r`, grouping stack `S'`, and whole frames `F` on top of `T`; whenever a later
-    failure backtracks into those frames, the remaining successes are delivered the same way; after the last one
-    the fragment fails into `T` with the grouping stack `S` and the captures `C0` it was entered with. -/
+/-- **the code fragment that ends at `b` delivers the successes `rs`, in order, on demand.**  `T` is the backtracking
+    stack the fragment was entered above, WITHOUT its bottom slot: the bottom slot (the text position saved by the
+    `Lazybranch` at code position 0) is rewritten by `UpdateBumpalong` and never read by any other instruction of the
+    fragment, so every state is described up to that slot (`T ++ [v]` for some `v`).  Entered in `s` above `T ++ [v]`
+    with grouping stack `S`: for the first success `r` the interpreter reaches `b` at `r.pos` with the captures of `r`,
+    grouping stack `S'`, and whole frames `F` on top of `T`; whenever a later failure backtracks into those frames
+    (whatever the bottom slot holds by then), the remaining successes are delivered the same way; after the last one the
+    fragment fails into `T` with the grouping stack `S` and the captures `C0` it was entered with. -/
 def Delivers (X : Setup) (b : Nat) (T S S' : List Int) (C0 : List (Nat × Nat × Nat)) :
     List St → VM.VMState → Prop
-  | [], s => Leads X s (FailAt X T S C0)
-  | r :: rs, s => ∃ F, Framed X.p F ∧ Leads X s (Entry X b r.pos (F ++ T) S' r.caps) ∧
-      ∀ s'', FailAt X (F ++ T) S' r.caps s'' → Delivers X b T S S' C0 rs s''
+  | [], s => Leads X s (fun s' => ∃ v, FailAt X (T ++ [v]) S C0 s')
+  | r :: rs, s => ∃ F, Framed X.p F ∧ Leads X s (fun s' => ∃ v, Entry X b r.pos (F ++ T ++ [v]) S' r.caps s') ∧
+      ∀ s'' v, FailAt X (F ++ T ++ [v]) S' r.caps s'' → Delivers X b T S S' C0 rs s''
 
 /-- the oracles of the interpreter and of the specification describe the same input: same text and `\G`
     origin, the same word characters, the same `RE2|ECMAScript` bit as the translation, and the k-th set of the
